@@ -39,6 +39,15 @@ fn main() {
             "--sub" => sub = Some(next()),
             "--replay" => replay = Some(PathBuf::from(next())),
             "--no-evidence" => write_evidence = false,
+            "--list-subs" => {
+                let id = prop.clone().unwrap_or_else(|| usage());
+                if let Some(p) = verif_harness::props::by_id(&id) {
+                    for s in &p.subs {
+                        println!("{}", s.name());
+                    }
+                }
+                return;
+            }
             "--list" => {
                 for id in verif_harness::props::all_ids() {
                     println!("{id}");
